@@ -189,7 +189,8 @@ Theorem C04_no_bg_left : forall cfg progs sched s p ss v,
 Proof. exact no_bg_left. Qed.
 Print Assumptions C04_no_bg_left.
 
-(* Deferred functions that do not return (they panic, or fail / skip the test through its T) change
+(* Deferred functions that do not return (they panic, or fail / skip the test through its T; for
+   ts.Fatalf see below) change
    the verdict only: a failure is never lost - a run that failed, or one of whose deferred functions
    calls FailNow / Fatal, ends as a failure or a panic whatever the other functions do - and
    functions that all return leave the verdict alone.  (That they all run, in reverse order, and that
@@ -205,6 +206,38 @@ Theorem C04_returning_deferred_functions_keep_verdict : forall d v,
   (forall x, In x d -> defer_end x = DRet) -> defers_verdict d v = v.
 Proof. exact defers_verdict_all_return. Qed.
 Print Assumptions C04_returning_deferred_functions_keep_verdict.
+
+(* The step of run() that runs the deferred functions: whatever they do, each of them runs, most
+   recent first, the stack is emptied and nothing else of the script changes - environment, files,
+   background commands (dealt with next, as on every path); only the verdict depends on how they end. *)
+Theorem C04_deferred_functions_step : forall cfg p s c ss v,
+  ph ss = Ending v SDefers ->
+  sstep cfg p s c ss
+  = (c, set_ph (set_dstack (add_obs ss (map (fun d => EvDeferRun (fst d)) (dstack ss))) []) (Ending (defers_verdict (dstack ss) v) SBgClean), NoEffect).
+Proof. exact sstep_defers. Qed.
+Print Assumptions C04_deferred_functions_step.
+
+(* A deferred function that ends with ts.Fatalf / ts.Check(err) fails the run and changes nothing else:
+   run() catches the failNow panic when the chain is through (generated constant
+   deferred_failnow_caught) and calls t.FailNow().  With functions that return or end that way, at least
+   one of the latter, the step is the one above with the verdict of a failed run - whatever the verdict
+   was going to be - so the functions have all run in reverse order and the script goes on to the same
+   clean-up as after a failing line (C04_no_bg_left, C04_refcount_root). *)
+Theorem C04_fatalf_in_deferred_function_fails_the_run : forall cfg p s c ss v,
+  ph ss = Ending v SDefers ->
+  (forall x, In x (dstack ss) -> defer_end x = DRet \/ defer_end x = DFatalf) ->
+  (exists x, In x (dstack ss) /\ defer_end x = DFatalf) ->
+  sstep cfg p s c ss
+  = (c, set_ph (set_dstack (add_obs ss (map (fun d => EvDeferRun (fst d)) (dstack ss))) []) (Ending (failed_verdict v) SBgClean), NoEffect).
+Proof. exact fatalf_in_deferred_fails_the_run. Qed.
+Print Assumptions C04_fatalf_in_deferred_function_fails_the_run.
+
+(* Without the catch (the code before the repair) it is false: the failNow panic escapes RunT. *)
+Theorem C04_uncaught_fatalf_refuted :
+  exists d v, (forall x, In x d -> defer_end x = DRet \/ defer_end x = DFatalf) /\ v = VPass /\
+    defers_verdict_gen false d v = VPanic /\ defers_verdict_gen true d v = VFail.
+Proof. exact uncaught_fatalf_refuted. Qed.
+Print Assumptions C04_uncaught_fatalf_refuted.
 
 (* A custom command that ends the run through the T it got from Env.T() (Skip, FailNow, Fatal) sends
    the script straight to its deferred functions, background commands untouched; the end of run()
